@@ -307,10 +307,48 @@ def correspondence(ctx, gen_ok, ho_ok=True):
         ns, nt, t2f, _ = tables(mt)
         dec_cases.append((f'({cnat(ns)}, {cnat(nt)}, {t2f}, {cmat_z(M.f2t)}, {cNs(data)})', f'({cnats(np.asarray(g))}, {cbools(go)})',
                           ('dec-loaded', name, int(kk), int(sum(ori)))))
-    # to_dict / from_dict at the level of the tag dictionaries
     def cstr(x):
         assert '"' not in x and x.isascii()
         return f'"{x}"%string'
+    # to_meshio: the data dictionaries of the caller combined with the encoded tags, under both flags
+    fw_cases = []
+    for k in range(ctx.n(8, 24)):
+        m = rand_mesh1(FIRST[k % 4], rng, size=[2, 2] if k % 4 < 2 else [2, 2, 2])
+        sub, bnd = rand_tags(m, rng, empty=False)
+        m = m.with_subdomains(sub).with_boundaries(bnd)
+        encc, encp = list(m._encode_cell_data()), list(m._encode_point_data())
+        for ecd in (False, True):
+            for epd in (False, True):
+                for give in (0, 1, 2):                       # no dictionaries / plain user keys / a user key that collides
+                    pd = cd = None
+                    if give:
+                        pd = {'u': np.full(m.p.shape[1], 7.0)}
+                        cd = {'c': [np.full(m.t.shape[1], 8.0)]}
+                        if give == 2:
+                            pd[encp[0]] = np.full(m.p.shape[1], 9.0)
+                            cd[encc[0]] = [np.full(m.t.shape[1], 10.0)]
+                    mio = to_meshio(m, pd, cd, encode_cell_data=ecd, encode_point_data=epd)
+
+                    def tagged(res, user, enc, cell):
+                        out = []
+                        for kk, v in res.items():
+                            a = np.asarray(v[0] if cell else v)
+                            j = None if user is None else next((i for i, uk in enumerate(user)
+                                                                if uk == kk and a.size and np.all(a == [7., 9.][i] + (1 if cell else 0))), None)
+                            out.append((kk, j if j is not None else 100 + enc.index(kk)))
+                        return out
+
+                    def cdict(d):
+                        return clist([f'({cstr(a)}, {cnat(b)})' for a, b in d])
+                    up = None if pd is None else [(kk, i) for i, kk in enumerate(pd)]
+                    uc = None if cd is None else [(kk, i) for i, kk in enumerate(cd)]
+                    inp = (f'({cbool(ecd)}, {cbool(epd)}, {"None" if up is None else "Some " + cdict(up)}, '
+                           f'{"None" if uc is None else "Some " + cdict(uc)}, {cdict([(kk, 100 + i) for i, kk in enumerate(encp)])}, '
+                           f'{cdict([(kk, 100 + i) for i, kk in enumerate(encc)])})')
+                    outp = (f'({cdict(tagged(mio.point_data, None if pd is None else list(pd), encp, False))}, '
+                            f'{cdict(tagged(mio.cell_data, None if cd is None else list(cd), encc, True))})')
+                    fw_cases.append((inp, outp, ('to_meshio-data', ecd, epd, give)))
+    # to_dict / from_dict at the level of the tag dictionaries
     for k in range(ctx.n(12, 40)):
         m = rand_mesh1(FIRST[k % 4], rng, size=[2, 2] if k % 4 < 2 else [2, 2, 2])
         _, bnd = rand_tags(m, rng)
@@ -366,6 +404,12 @@ Definition assoc_eqb {V} (e : V -> V -> bool) := list_eqb (fun (a b : String.str
 Definition dict_out_eqb (a b : list (String.string * list nat) * list (String.string * list bool) * bdict) : bool :=
   assoc_eqb nats_eqb (fst (fst a)) (fst (fst b)) && assoc_eqb bools_eqb (snd (fst a)) (snd (fst b)) && assoc_eqb tag_eqb (snd a) (snd b).
 Definition dict_rt (b : bdict) := (gen_dict_boundaries b, gen_dict_orientations b, gen_dict_load (gen_dict_boundaries b) (gen_dict_orientations b)).
+Definition fw (c : bool * bool * option (list (String.string * nat)) * option (list (String.string * nat))
+                  * list (String.string * nat) * list (String.string * nat))
+  : list (String.string * nat) * list (String.string * nat) :=
+  let '(ecd, epd, up, uc, encp, encc) := c in
+  let flat (o : option (list (String.string * nat))) := match o with Some d => d | None => [] end in
+  (flat (gen_point_data_of_to_meshio ecd epd up encp), flat (gen_cell_data_of_to_meshio ecd epd uc encc)).
 Definition sub (c : nat * list nat) : list N * list nat :=
   let '(nt, s) := c in (gen_encode_subdomain nt s, gen_decode_subdomain (gen_encode_subdomain nt s)).
 '''
@@ -377,6 +421,9 @@ Definition sub (c : nat * list nat) : list N * list nat :=
                          nontrivial=lambda r: r[2] >= 2),
         lambda: ctx.corr('subdomain_codec', imp, 'sub', '(pair_eqb Ns_eqb nats_eqb)', sub_cases, defs=defs,
                          nontrivial=lambda r: r[2] >= 1),
+        lambda: ctx.corr('to_meshio_data_dicts', imp + '\nFrom Coq Require String.', 'fw',
+                         '(pair_eqb (assoc_eqb Nat.eqb) (assoc_eqb Nat.eqb))', fw_cases, defs='Import String.\n' + defs,
+                         nontrivial=lambda r: r[3] >= 1),
         lambda: ctx.corr('to_dict_from_dict', imp + '\nFrom Coq Require String.', 'dict_rt', 'dict_out_eqb', dict_cases,
                          defs='Import String.\n' + defs, nontrivial=lambda r: r[2] >= 1),
     ]
